@@ -13,7 +13,7 @@ LEVEL = 'exploration'
 RULE = (
     'Generated call histories on one bus (serial or parallel handlers) with ordinary handlers: start_expect(type as '
     'class|string, include/exclude/predicate from a family incl. a raising one, timeout off the 0.05 s grid), '
-    'cancel_expect(i), dispatch(type, n) bursts, advance(dt); 1-4 overlapping expects. Reference model: an expect sees '
+    'cancel_expect(i), dispatch(type, n) bursts, advance(dt), stop(clear=True) with expects pending; 1-4 overlapping expects. Reference model: an expect sees '
     'the events of its type whose processing on the bus starts after registration, in processing order, and resolves '
     'with the first one satisfying include and predicate and not exclude, else TimeoutError at registration+timeout; a '
     'candidate whose processing interval contains the registration, the deadline or the cancellation instant is '
@@ -59,6 +59,9 @@ def _case(draw):
             ops.append(['cancel', draw(st.integers(0, 5))])
         else:
             ops.append(['expect', draw(st.sampled_from(['EA', 'EA', 'EB'])), draw(st.booleans()), draw(st.sampled_from(['any', 'any', 'odd', 'big', 'never', 'boom'])), draw(st.sampled_from(['never', 'never', 'never', 'odd', 'big', 'boom'])), draw(st.sampled_from(['any', 'any', 'any', 'odd'])), draw(st.sampled_from([None, 0.0625, 0.3125, 1.0625, 0, 0.0]))])
+    if draw(st.integers(0, 5)) == 0:
+        # the bus is stopped with clear=True while expects may still be pending: they must still end with TimeoutError / stay pending
+        ops.insert(draw(st.integers(max(0, len(ops) - 3), len(ops))), ['stopclear'])
     return {'ops': ops, 'hd': draw(st.sampled_from([0, 0.05, 0.2])), 'par': draw(st.integers(0, 4)) == 0}
 
 
@@ -121,6 +124,8 @@ def run_case(c):
         base = nhandlers()
         exps = []
         pending = [0]
+        stopped = [False]
+        stop_at = {}
 
         async def do_expect(rec):
             _, ty, as_str, inc, exc, pred, to = rec['op']
@@ -147,12 +152,23 @@ def run_case(c):
             rec['end_seq'] = tick()
             rec['end_t'] = T()
             n = nhandlers()
-            if n != base + pending[0]:
+            if stopped[0]:
+                pass  # stop(clear=True) emptied the registry; what is left is not an expect() subscription question any more
+            elif n != base + pending[0]:
                 viol.append(('C18.d', f'after expect #{rec["i"]} ended with {rec["out"][0]} the bus has {n} handlers registered, expected baseline {base} + {pending[0]} pending expects'))
 
         tagc = [0]
         for op in c['ops']:
-            if op[0] == 'disp':
+            if op[0] == 'stopclear':
+                if not stopped[0]:
+                    await bus.stop(clear=True)
+                    stopped[0] = nhandlers() == 0  # (stop() on a bus that never started is a documented no-op: nothing is cleared)
+                    if stopped[0]:
+                        stop_at['t'] = T()
+                        stop_at['seq'] = tick()
+            elif op[0] == 'disp':
+                if stopped[0]:
+                    continue
                 for j in range(op[3]):
                     e = TY[op[1]](n=(op[2] + j) % 7, tag=tagc[0])
                     tagc[0] += 1
@@ -161,7 +177,9 @@ def run_case(c):
             elif op[0] == 'sleep':
                 await asyncio.sleep(op[1])
             elif op[0] == 'expect':
-                rec = {'op': op, 'i': len(exps)}
+                if stopped[0]:
+                    continue
+                rec = {'op': op, 'i': len(exps), 'gen': 0}
                 rec['task'] = asyncio.ensure_future(do_expect(rec))
                 exps.append(rec)
                 await asyncio.sleep(0)  # let it register
@@ -183,7 +201,7 @@ def run_case(c):
                 rec['task'].cancel()
         await asyncio.sleep(0.5)
         n = nhandlers()
-        if n != base:
+        if not stopped[0] and n != base:
             viol.append(('C18.d', f'after all expects ended the bus has {n} handlers registered, baseline was {base}'))
         # processing end per event: when its slow handler result completed (start + hd)
         for tag, p in proc.items():
@@ -218,6 +236,8 @@ def run_case(c):
                     amb = True
                 if C is not None and p['st'] <= C <= p['et']:
                     amb = True
+                if stop_at and p['st'] <= stop_at['t'] <= p['et']:
+                    amb = True  # the bus was stopped while this event was being processed: the subscription may have been cleared first
                 ncand += 1
                 if _match(op, e):
                     possible.append(('got', e))
@@ -264,8 +284,8 @@ def run_case(c):
                 viol.append(('C18.c', f'expect #{rec["i"]} {op} raised {out[1]}'))
             if rec.get('pending_at_reg', 0) >= 2:
                 stats['concurrent-expects'] += 1
-        # ordinary handlers unaffected
-        for e in evs:
+        # ordinary handlers unaffected (not judged when the bus was stopped half way: queued events are never processed then)
+        for e in ([] if stopped[0] else evs):
             rs = [r for r in e.event_results.values() if r.handler_name.endswith('slow')]
             ps = [r for r in e.event_results.values() if r.handler_name.endswith('probe')]
             if len(rs) != 1 or rs[0].status != 'completed' or rs[0].result != 'ok' or len(ps) != 1 or ps[0].status != 'completed':
@@ -313,6 +333,8 @@ def run_case(c):
         cl.append('parallel-bus')
     if any(op[0] == 'expect' and 'boom' in (op[3], op[4]) for op in c['ops']):
         cl.append('raising-filter')
+    if any(op[0] == 'stopclear' for op in c['ops']):
+        cl.append('stop-clear-with-pending-expects')
     seen, outv = set(), []
     for v in viol:
         if v[0] not in seen:
